@@ -20,6 +20,24 @@ import overlay  # noqa: E402
 VERIF = overlay.VERIF
 ENV = dict(os.environ, CARGO_NET_OFFLINE="true", CARGO_TERM_COLOR="never")
 ENV.pop("RUSTUP_TOOLCHAIN", None)
+import signal
+
+
+def run_group(cmd, cwd, env, timeout, capture=True, stdout=None):
+    """subprocess.run with the child in its own process group, killed as a group on timeout
+    (cargo-kani's cbmc grandchildren would otherwise survive)."""
+    p = subprocess.Popen(cmd, cwd=cwd, env=env, text=True, start_new_session=True,
+                         stdout=(subprocess.PIPE if capture else stdout), stderr=(subprocess.PIPE if capture else subprocess.STDOUT))
+    try:
+        out, err = p.communicate(timeout=timeout)
+        return p.returncode, (out or "") + (err or "")
+    except subprocess.TimeoutExpired:
+        try:
+            os.killpg(p.pid, signal.SIGKILL)
+        except ProcessLookupError:
+            pass
+        p.wait()
+        raise
 
 
 def log(*a):
@@ -84,12 +102,9 @@ def run_kani(ov, filters, jobs, harness_timeout, total_timeout, extra, json_out,
     t0 = time.time()
     with open(log_path, "w") as lf:
         try:
-            p = subprocess.run(["bash", "-c", sh], cwd=ov, env=ENV, stdout=lf, stderr=subprocess.STDOUT,
-                               timeout=total_timeout)
-            rc = p.returncode
+            rc, _ = run_group(["bash", "-c", sh], ov, ENV, total_timeout, capture=False, stdout=lf)
         except subprocess.TimeoutExpired:
             rc = -9
-            subprocess.run(["pkill", "-f", ov], check=False)
     return rc, time.time() - t0
 
 
@@ -196,10 +211,10 @@ def replay(ov, prop, item, extra, timeout=900, native=True):
     path = os.path.join(outdir, uniq + ".rs")
     cmd = ["cargo", "kani", "--harness", h, "--exact", "-Z", "concrete-playback", "--concrete-playback=print"] + extra
     try:
-        p = subprocess.run(cmd, cwd=ov, env=ENV, capture_output=True, text=True, timeout=timeout)
+        _rc, gen_out = run_group(cmd, ov, ENV, timeout)
     except subprocess.TimeoutExpired:
         return None, path, "playback generation timed out"
-    blocks = re.findall(r"#\[test\]\s*\nfn kani_concrete_playback_\w+\(\) \{.*?\n\}\n", p.stdout, re.S)
+    blocks = re.findall(r"#\[test\]\s*\nfn kani_concrete_playback_\w+\(\) \{.*?\n\}\n", gen_out, re.S)
     seen_names, uniq_blocks = set(), []
     for b in blocks:
         nm = re.search(r"fn (kani_concrete_playback_\w+)\(", b).group(1)
@@ -244,13 +259,12 @@ def replay(ov, prop, item, extra, timeout=900, native=True):
             rel_env[f"CARGO_PROFILE_{prof}_DEBUG_ASSERTIONS"] = "false"
             rel_env[f"CARGO_PROFILE_{prof}_OVERFLOW_CHECKS"] = "false"
         for profile in ([], ["--release"]):
-            cmd = ["cargo", "kani", "playback", "-Z", "concrete-playback", "--", "verif_playback"]
+            cmd = ["cargo", "kani", "playback", "-Z", "concrete-playback", "--", "verif_playback", "--test-threads=1"]
             try:
-                q = subprocess.run(cmd, cwd=ov, env=(rel_env if profile else ENV), capture_output=True, text=True, timeout=timeout)
+                _rc, out = run_group(cmd, ov, (rel_env if profile else ENV), timeout)
             except subprocess.TimeoutExpired:
                 notes.append(f"{'release' if profile else 'dev'}: timeout")
                 continue
-            out = q.stdout + q.stderr
             m = re.search(r"test result: \w+\. (\d+) passed; (\d+) failed", out)
             hit = needle in out and re.search(r"panicked at", out) is not None
             if not m:
